@@ -244,6 +244,11 @@ func (c *FnCtx) evalExpr(st *State, e ast.Expr) Val {
 			c.unsupport("unresolved identifier "+x.Name, x.Pos())
 			return vInt("0")
 		}
+		if c.boxed[o] {
+			if pv, ok := st.env[o]; ok && pv.K == KPtr {
+				return c.readPtr(st, o.Type(), pv.S)
+			}
+		}
 		if v, ok := c.objVal(st, o); ok {
 			return v
 		}
@@ -280,6 +285,13 @@ func (c *FnCtx) evalExpr(st *State, e ast.Expr) Val {
 				addr := c.allocRef(st)
 				c.writePtr(st, t, addr, v)
 				return Val{K: KPtr, S: addr, T: c.typeOf(e), Elem: t}
+			}
+			if id, ok := unparen(x.X).(*ast.Ident); ok {
+				if o := c.info.ObjectOf(id); o != nil && c.boxed[o] {
+					if pv, ok := st.env[o]; ok {
+						return pv
+					}
+				}
 			}
 			c.unsupport("address-of", x.Pos())
 			return c.freshVal(c.typeOf(e), "addr")
@@ -529,14 +541,14 @@ func (c *FnCtx) evalBinary(st *State, x *ast.BinaryExpr) Val {
 	switch x.Op {
 	case token.EQL, token.NEQ:
 		// mixed interface / concrete comparison
-		if a.K == KIfc && b.K != KIfc && !(b.K == KIfc) {
-			if bb, ok := tb.Underlying().(*types.Basic); !(ok && bb.Kind() == types.UntypedNil) {
-				b = c.box(b, tb)
-			}
-		} else if b.K == KIfc && a.K != KIfc {
-			if ab, ok := ta.Underlying().(*types.Basic); !(ok && ab.Kind() == types.UntypedNil) {
-				a = c.box(a, ta)
-			}
+		isNilT := func(t types.Type) bool {
+			bb, ok := t.Underlying().(*types.Basic)
+			return ok && bb.Kind() == types.UntypedNil
+		}
+		if isIfaceType(ta) && !isIfaceType(tb) && !isNilT(tb) && b.K != KIfc {
+			b = c.box(b, tb)
+		} else if isIfaceType(tb) && !isIfaceType(ta) && !isNilT(ta) && a.K != KIfc {
+			a = c.box(a, ta)
 		}
 		var eq string
 		if a.K == KIfc && b.K == KIfc && a.S != "nilIfc" && b.S != "nilIfc" {
@@ -651,11 +663,19 @@ func (c *FnCtx) exec(st *State, s ast.Stmt) *State {
 				if o == nil {
 					continue
 				}
+				var nv Val
 				if i < len(vs.Values) {
 					v := c.evalExpr(st, vs.Values[i])
-					st.env[o] = c.convertTo(st, v, c.typeOf(vs.Values[i]), o.Type())
+					nv = c.convertTo(st, v, c.typeOf(vs.Values[i]), o.Type())
 				} else {
-					st.env[o] = c.w.zero(o.Type())
+					nv = c.w.zero(o.Type())
+				}
+				if c.boxed[o] {
+					addr := c.allocRef(st)
+					st.env[o] = Val{K: KPtr, S: addr, T: types.NewPointer(o.Type()), Elem: o.Type()}
+					c.writePtr(st, o.Type(), addr, nv)
+				} else {
+					st.env[o] = nv
 				}
 			}
 		}
@@ -872,6 +892,16 @@ func (c *FnCtx) assignLhs(st *State, l ast.Expr, v Val, from types.Type, define 
 		}
 		if ov, isVar := o.(*types.Var); isVar && ov.Parent() == ov.Pkg().Scope() {
 			c.unsupport("assignment to package-level variable "+id.Name, id.Pos())
+			return
+		}
+		if c.boxed[o] {
+			pv, ok := st.env[o]
+			if !ok || pv.K != KPtr {
+				addr := c.allocRef(st)
+				pv = Val{K: KPtr, S: addr, T: types.NewPointer(o.Type()), Elem: o.Type()}
+				st.env[o] = pv
+			}
+			c.writePtr(st, o.Type(), pv.S, nv)
 			return
 		}
 		st.env[o] = nv
@@ -1515,6 +1545,9 @@ func (c *FnCtx) execRange(st *State, x *ast.RangeStmt) *State {
 		return st
 	}
 	ls, ord := c.loopSpec()
+	if ls != nil && ls.Unroll > 0 && (coll.K == KSlice || coll.K == KArray) {
+		return c.execRangeUnrolled(st, x, coll, n, ls, ord)
+	}
 	// index variable
 	var keyObj types.Object
 	if id, ok := x.Key.(*ast.Ident); ok && id.Name != "_" && !isMap {
@@ -1623,4 +1656,67 @@ func (c *FnCtx) execRange(st *State, x *ast.RangeStmt) *State {
 	brks := c.breaks[len(c.breaks)-1]
 	c.breaks = c.breaks[:len(c.breaks)-1]
 	return c.merge(append([]*State{exit}, brks...))
+}
+
+// execRangeUnrolled executes a range loop by unrolling it K times; the unwinding assertion
+// (no further iteration is possible) makes the result complete under the precondition.
+func (c *FnCtx) execRangeUnrolled(st *State, x *ast.RangeStmt, coll Val, n string, ls *LoopSpec, ord int) *State {
+	var exits []*State
+	cur := st
+	c.breaks = append(c.breaks, nil)
+	for k := 0; k < ls.Unroll && cur != nil; k++ {
+		idx := sInt(int64(k))
+		guard := c.define("guard", "Bool", sx("<", idx, n))
+		exit := cur.clone()
+		exit.pc = c.define("pc", "Bool", sAnd(cur.pc, sNot(guard)))
+		exits = append(exits, exit)
+		body := cur.clone()
+		body.pc = c.define("pc", "Bool", sAnd(cur.pc, guard))
+		if id, ok := x.Key.(*ast.Ident); ok && id.Name != "_" {
+			var ko types.Object
+			if x.Tok == token.DEFINE {
+				ko = c.info.Defs[id]
+			} else {
+				ko = c.info.ObjectOf(id)
+			}
+			if ko != nil {
+				body.env[ko] = Val{K: KInt, S: idx, T: types.Typ[types.Int]}
+			}
+		}
+		if x.Value != nil {
+			if id, ok := x.Value.(*ast.Ident); ok && id.Name != "_" {
+				var vo types.Object
+				if x.Tok == token.DEFINE {
+					vo = c.info.Defs[id]
+				} else {
+					vo = c.info.ObjectOf(id)
+				}
+				var ev Val
+				if coll.K == KSlice {
+					ev = c.readElem(body, coll.Elem, coll.ref(), sx("+", coll.off(), idx))
+				} else {
+					ev = c.arraySelect(coll, idx)
+				}
+				if vo != nil {
+					if ev.T == nil {
+						ev.T = vo.Type()
+					}
+					body.env[vo] = ev
+				}
+			}
+		}
+		c.conts = append(c.conts, nil)
+		end := c.exec(body, x.Body)
+		conts := c.conts[len(c.conts)-1]
+		c.conts = c.conts[:len(c.conts)-1]
+		cur = c.merge(append([]*State{end}, conts...))
+	}
+	if cur != nil {
+		c.obligeNamed(cur, "unwind", fmt.Sprintf("loop%d/unwind", ord), sNot(sx("<", sInt(int64(ls.Unroll)), n)), fmt.Sprintf("loop unrolled %d times covers every iteration", ls.Unroll), x.Pos())
+		done := cur.clone()
+		exits = append(exits, done)
+	}
+	brks := c.breaks[len(c.breaks)-1]
+	c.breaks = c.breaks[:len(c.breaks)-1]
+	return c.merge(append(exits, brks...))
 }
